@@ -10,12 +10,11 @@ GENS = ['units', 'consts']
 TARGETS = ['BC.Props.C15']
 PROP_FILES = ['BC/Props/C15.lean', 'BC/Lemmas/Filter.lean']
 # source ties: function bodies regenerated from the Python source by translate/t_funcs.py, proved equal to the model functions
-SRC = {'module': 'BC.Props.C15Src', 'file': 'BC/Props/C15Src.lean', 'lemma_files': ['BC/Lemmas/SrcLoop.lean', 'BC/Lemmas/SrcFilter.lean', 'BC/Props/C12Src.lean', 'BC/Props/C05Src.lean', 'BC/Props/C04Src.lean'],
-       'theorems': ['C15_src_iterate', 'C15_src_loop', 'C15_src_setup_seen_zero', 'C15_src_check_zero_crossing', 'C15_src_check_mach_crossing', 'C15_src_should_record']}
+SRC = {'module': 'BC.Props.C15Src', 'file': 'BC/Props/C15Src.lean', 'lemma_files': ['BC/Lemmas/SrcFilter.lean'],
+       'theorems': ['C15_src_setup_seen_zero', 'C15_src_check_zero_crossing', 'C15_src_check_mach_crossing', 'C15_src_should_record']}
 THEOREMS = ['C15_zero_up_step', 'C15_zero_down_step', 'C15_at_most_once', 'C15_zero_up_exact', 'C15_zero_down_exact', 'C15_setup_seen_zero',
             'C15_mach_step', 'C15_event_row', 'C15_record_time_between', 'C15_bookkeeping']
 STATEMENTS = {
-    'C15_src_iterate': 'SOURCE TIE, WHOLE LOOP BODY: the model function iterate (one iteration of the integration loop: wind update, atmosphere, recording, step, limit check) equals Src.loop_body, the entire body of the while loop of _integrate executed symbolically from the Python source on every run, for every loop state (hypotheses: atmosphere look-up answers, the speeds of sound entering velocity/mach are non-zero, the sock horizon is the class constant); C15_src_loop: one unfolding of the model loop = the source while-condition + iterate',
     'C15_src_check_zero_crossing': 'SOURCE TIE (all C15_src_*): setup_seen_zero, check_zero_crossing, check_mach_crossing, should_record as regenerated from the Python source equal TFilter.setupSeenZero / checkZero / checkMach / shouldRecord',
     'C15_zero_up_step': 'ZERO_UP raised on a state iff not seen before and the state is beyond the muzzle on/above the sight line; then marked seen',
     'C15_zero_down_step': 'ZERO_DOWN raised iff ZERO_UP seen before this state, ZERO_DOWN not yet, state beyond the muzzle below the line',
